@@ -349,6 +349,34 @@ func checkC01(c *Ctx) {
 	nCp := c.borrow(func(c2 *Ctx) { c2.c02Deliver() }, "C02/DELIVER/concat", "C01/COPY/per-destination", "the content of each stored copy is header text followed by a reader over the unmodified source, created for that destination")
 	r.Floor("C01/COPY/per-destination", "borrowed obligations", nCp, 1)
 
+	// "250 only when stored": inside the stores, a failure on the way (source, raw file, copy,
+	// flush, close, index) must come back from AddMessage as an error — a failure branch that
+	// reports success makes Deliver acknowledge a message no mailbox holds
+	{
+		r.Rule("C01/STORE/errors", "in what a store's AddMessage runs, every error the code tests against nil is reported on its failure branch (no return there reports success, except behind an explicit not-exist / EOF test)")
+		var afns []*ssa.Function
+		seenA := map[*ssa.Function]bool{}
+		if iface, ok := p.Named("pkg/storage", "Store").Underlying().(*types.Interface); ok {
+			for _, T := range p.Implementers(iface, false) {
+				if am := p.MethodOf(T, "AddMessage"); am != nil {
+					for g := range p.SyncReach(am) {
+						if strings.HasPrefix(eng.FuncPkgPath(g), eng.Mod+"/pkg/storage") && !seenA[g] {
+							seenA[g] = true
+							afns = append(afns, g)
+						}
+					}
+					if !seenA[am] {
+						seenA[am] = true
+						afns = append(afns, am)
+					}
+				}
+			}
+		}
+		sortFuncs(afns)
+		nSE := c.storeErrorsPropagate("C01/STORE/errors", afns, "AddMessage reports success although the message was not (completely) stored: the SMTP client gets its 250 and the mailbox holds nothing, or a truncated copy")
+		r.Floor("C01/STORE/errors", "tested errors on the AddMessage paths of the stores", nSE, 3)
+	}
+
 	// ---- D6
 	t := c.smtpTypestate(m)
 	for _, u := range t.undec {
